@@ -35,3 +35,14 @@ Theorem C16_hull_in_ball : forall (g : V3) (rn rd : Z), 0 <= rn -> 0 < rd -> for
   rd * norm2 (hrel g (hcomb l)) <= snd (hcomb l) * snd (hcomb l) * rn /\ 0 <= snd (hcomb l).
 Proof. exact hull_in_ball. Qed.
 Print Assumptions C16_hull_in_ball.
+
+(* at cell level (3D): every point of the hull of the vertices lies within the largest vertex distance of the generator,
+   i.e. within half the reported safety radius (max_radius2 is what update_safety_radius computes, squared) *)
+From MV Require Import Model.Cycle Proofs.HullSafety.
+Theorem C16_hull_within_max_radius : forall g (vs : list vertex) l,
+  Forall (fun v => 0 < snd (vloc v)) vs ->
+  Forall (fun '(lam, p) => 0 <= lam /\ exists v, In v vs /\ p = vloc v) l ->
+  let '(rn, rd) := max_radius2 3 g vs in
+  0 < rd /\ rd * norm2 (hrel g (hcomb l)) <= snd (hcomb l) * snd (hcomb l) * rn.
+Proof. exact hull_within_max_radius. Qed.
+Print Assumptions C16_hull_within_max_radius.
